@@ -372,6 +372,34 @@ impl FinalityTracker {
     }
 }
 
+/// Read-only views for the out-of-tree verification harness.
+#[cfg(feature = "verif-hooks")]
+impl FinalityTracker {
+    /// All retained `(slot, status tag, hash)` entries in slot order.
+    ///
+    /// Tags: 0 notarized, 1 final-pending-notar, 2 finalized, 3 implicitly finalized, 4 implicitly skipped.
+    pub(super) fn verif_status(&self) -> Vec<(Slot, u8, Option<BlockHash>)> {
+        self.status
+            .iter()
+            .map(|(slot, status)| match status {
+                FinalizationStatus::Notarized(h) => (*slot, 0, Some(h.clone())),
+                FinalizationStatus::FinalPendingNotar => (*slot, 1, None),
+                FinalizationStatus::Finalized(h) => (*slot, 2, Some(h.clone())),
+                FinalizationStatus::ImplicitlyFinalized(h) => (*slot, 3, Some(h.clone())),
+                FinalizationStatus::ImplicitlySkipped => (*slot, 4, None),
+            })
+            .collect()
+    }
+
+    /// All retained `(block, parent)` links in block order.
+    pub(super) fn verif_parents(&self) -> Vec<(BlockId, BlockId)> {
+        self.parents
+            .iter()
+            .map(|(b, p)| (b.clone(), p.clone()))
+            .collect()
+    }
+}
+
 #[cfg(test)]
 mod tests {
     use super::*;
